@@ -225,6 +225,25 @@ func subCLI(out string, seed uint64, tier string, arg string) {
 		check("der-stdin", runCLI(bin, o.DER, "-format", "der"), want, o, "zlint -format der < x.der")
 		check("der-stdin-dash", runCLI(bin, o.DER, "-format", "DER", "-"), want, o, "zlint -format DER - < x.der")
 		check("base64-stdin", runCLI(bin, b64B, "-format", "base64"), want, o, "zlint -format base64 < x.b64")
+		// a PEM input with further blocks after the first: the first block is the object (pem.Decode reads one block); what
+		// follows — another certificate, a CRL — must not be what gets linted
+		if i+1 < len(sample) && i < 6 {
+			second := pem.EncodeToMemory(&pem.Block{Type: "CERTIFICATE", Bytes: sample[i+1].DER})
+			two := append(append([]byte{}, pemB...), second...)
+			twoF := filepath.Join(tmp, fmt.Sprintf("two%d.pem", i))
+			os.WriteFile(twoF, two, 0o644)
+			check("pem-two-certificates-file", runCLI(bin, nil, twoF), want, o, "zlint first+second.pem")
+			check("pem-two-certificates-stdin", runCLI(bin, two), want, o, "zlint < first+second.pem")
+			if len(crls) > 0 {
+				crl := crls[i%len(crls)]
+				crlPEM := pem.EncodeToMemory(&pem.Block{Type: "X509 CRL", Bytes: crl.DER})
+				check("pem-certificate-then-crl", runCLI(bin, append(append([]byte{}, pemB...), crlPEM...)), want, o, "zlint < cert+crl.pem")
+				if rsC, pC := lintObj(crl.reparse(), g); pC == "" {
+					check("pem-crl-then-certificate", runCLI(bin, append(append([]byte{}, crlPEM...), pemB...)), libJSON(rsC), crl, "zlint < crl+cert.pem")
+				}
+			}
+			rep.count("multi-block-pem")
+		}
 		// suffix beats -format, per file; several files per invocation
 		if i+1 < len(sample) {
 			o2 := sample[i+1]
